@@ -742,3 +742,38 @@ Qed.
 
 Lemma split_sizes_ok sizes : chunk_ok (split_sizes sizes).
 Proof. intros b. apply split_sizes_concat. Qed.
+
+(** * Corollary: the reply is the normal one iff it fits; the kind is RESPONSE_TOO_LARGE exactly when it
+      does not *)
+Theorem bounded_reply_iff lim chunk etext rh name rb opid :
+  chunk_ok chunk ->
+  plan_wf opid (PReply rh name rb true) -> plan_small etext (PReply rh name rb true) ->
+  let out := bo_data (snd (run_plan lim chunk true etext (PReply rh name rb true))) in
+  let normal := msg_bytes rh name mt_reply rb in
+  (classify_reply out = Some (opid, None) <-> fits lim (zlen normal) = true) /\
+  (out = normal <-> fits lim (zlen normal) = true) /\
+  (out <> [] -> (classify_reply out = Some (opid, Some ex_response_too_large) <-> fits lim (zlen normal) = false)).
+Proof.
+  intros Hc Hwf Hsm. cbv zeta.
+  destruct (bounded_reply lim chunk etext rh name rb true opid Hc Hwf Hsm) as (_ & H2 & H3).
+  cbv zeta in H2, H3.
+  destruct (fits lim (zlen (msg_bytes rh name mt_reply rb))) eqn:Hf.
+  - destruct (H2 eq_refl eq_refl) as [E C]. rewrite E in *. split; [|split].
+    + split; intros _; [reflexivity|exact C].
+    + split; intros _; reflexivity.
+    + intros _. rewrite C. split; intros H; discriminate H.
+  - destruct (H3 (or_introl eq_refl)) as (_ & G2 & G3).
+    destruct (fits lim (min_error_frame opid name ex_response_too_large etext - 4)) eqn:Hm.
+    + specialize (G2 eq_refl). split; [|split].
+      * rewrite G2. split; intros H; discriminate H.
+      * split; [|intros H; discriminate H]. intros E. rewrite E in G2.
+        destruct Hwf as [Hnd Ho]. destruct Hsm as (Hh & Hn & _).
+        unfold msg_bytes in G2. rewrite (classify_reply_reply rh name rb opid Hh Hn) in G2; [discriminate G2|].
+        rewrite to_map_id by exact Hnd. exact Ho.
+      * intros _. split; intros _; [reflexivity|exact G2].
+    + specialize (G3 eq_refl). rewrite G3. split; [|split].
+      * split; intros H; discriminate H.
+      * split; [|intros H; discriminate H]. intros E. symmetry in E.
+        exfalso. exact (msg_bytes_nonempty _ _ _ _ E).
+      * intros H. contradiction.
+Qed.
